@@ -179,6 +179,7 @@ func (fc *FnCtx) run() (err error) {
 		for j, t := range v.T {
 			fc.watchBase = append(fc.watchBase, watch{p.Name() + "." + cs[j].Suf, t})
 		}
+		fc.watchStruct(p.Name(), v, st, 0)
 		if sl, ok := p.Type().Underlying().(*types.Slice); ok {
 			if b, ok := sl.Elem().Underlying().(*types.Basic); ok && b.Kind() == types.Uint8 {
 				arr := fc.heapGet(st, "M:bv8.", memSort(sBV(8)))
@@ -801,10 +802,15 @@ func (fc *FnCtx) unop(x *ssa.UnOp) {
 		// refs found in the heap were allocated before the location was last written
 		bound := fc.cur.ac
 		if cs := fc.e.comps(loc.Ty); len(cs) > 0 {
+			var kb string
 			if loc.Kind == locField {
-				bound = fc.acOfKey(fc.cur, loc.S+"."+loc.Pre+cs[0].Suf)
+				kb = fc.acOfKey(fc.cur, loc.S+"."+loc.Pre+cs[0].Suf)
 			} else {
-				bound = fc.acOfKey(fc.cur, fc.e.memKey(loc.Ty)+"."+cs[0].Suf)
+				kb = fc.acOfKey(fc.cur, fc.e.memKey(loc.Ty)+"."+cs[0].Suf)
+			}
+			// an object allocated after the key was last written here (e.g. by a callee) may hold younger refs
+			if kb != bound {
+				bound = ite(sx("<", loc.Ref, kb), kb, bound)
 			}
 		}
 		if w := fc.wfAc(lv, bound); w != "true" {
@@ -929,7 +935,7 @@ func (fc *FnCtx) typeAssert(x *ssa.TypeAssert) {
 		ok = and(not(eq(iv.T[0], "0")), sx(pred, iv.T[0]))
 		val = V{Ty: at, T: iv.T}
 	} else {
-		tag := fmt.Sprint(fc.e.tagOf(at))
+		tag := fc.tagTerm(at)
 		ok = eq(iv.T[0], tag)
 		val = fc.unbox(iv, at)
 	}
@@ -1448,5 +1454,34 @@ func (fc *FnCtx) runDefers() {
 		before := fc.cur.clone()
 		fc.call(d.instr, d.instr.Common(), d.instr.Pos())
 		fc.cur = fc.mergeStates([]string{d.cond, "true"}, []*State{fc.cur, before})
+	}
+}
+
+
+// watchStruct adds the scalar fields reachable from a pointer parameter (two levels) to the model watch list.
+func (fc *FnCtx) watchStruct(name string, v V, st *State, depth int) {
+	pt, ok := v.Ty.Underlying().(*types.Pointer)
+	if !ok || depth > 1 {
+		return
+	}
+	stt, ok := pt.Elem().Underlying().(*types.Struct)
+	if !ok || fc.e.isOpaqueStruct(pt.Elem()) || isTimeStruct(pt.Elem()) {
+		return
+	}
+	loc := fc.locOf(v)
+	for i := 0; i < stt.NumFields(); i++ {
+		f := stt.Field(i)
+		fl := &Loc{Kind: locField, S: loc.S, Pre: loc.Pre + fmt.Sprintf("f%d_", i), Ref: loc.Ref, Ty: f.Type()}
+		switch u := f.Type().Underlying().(type) {
+		case *types.Basic:
+			if u.Info()&(types.IsInteger|types.IsBoolean) != 0 {
+				fv := fc.load(st, fl)
+				fc.watchBase = append(fc.watchBase, watch{name + "." + f.Name(), fv.T[0]})
+			}
+		case *types.Pointer:
+			fv := fc.load(st, fl)
+			fc.watchBase = append(fc.watchBase, watch{name + "." + f.Name(), fv.T[0]})
+			fc.watchStruct(name+"."+f.Name(), fv, st, depth+1)
+		}
 	}
 }
